@@ -248,6 +248,10 @@ func checkC13(w *World, r *Recorder) propInfo {
 	// K7: "null entry" (wrong syntax) is reported exactly for a nil element; an
 	// allocated component without fields lacks mandatory fields instead
 	ruleNullEntryIsNilTest(w, r, "C13-K7")
+	// K8: the class of an error about a field of an extension component (a type
+	// embedding SwComponent) presupposes that decoding filled that field: no
+	// codec method of the embedded type may take over the embedder's decoding
+	ruleCodecMethodSets(w, r, "C13-K8")
 
 	r.Floor("C13-K1", 11)
 	r.Floor("C13-K2", 40)
